@@ -520,14 +520,15 @@ Proof.
     repeat match type of H with
     | (if ?c then _ else _) = _ => destruct c
     end; try discriminate; inv H; core; try (plain ET; fail).
-  (* KShut with the shutdown flag set: the thread ends and the dispatcher's close() is spawned *)
-  assert (FR : thr s (2 * next_int s + 1) = None) by (eapply fresh_int; eauto).
-  assert (NE : t <> 2 * next_int s + 1) by (intros E; rewrite <- E in FR; congruence).
-  unfold new_close.
-  apply P_thread; [ | rewrite upd_other; [congruence|auto] | cbn; auto
+  (* KCheck of a second connect command / KShut with the shutdown flag set: the thread ends and the
+     dispatcher's close() is spawned *)
+  all: assert (FR : thr s (2 * next_int s + 1) = None) by (eapply fresh_int; eauto).
+  all: assert (NE : t <> 2 * next_int s + 1) by (intros E; rewrite <- E in FR; congruence).
+  all: unfold new_close.
+  all: apply P_thread; [ | rewrite upd_other; [congruence|auto] | cbn; auto
                   | intros g c Hg; exfalso; destruct (i_res _ _ _ _ _ _ _ _ I _ _ _ Hg) as (_ & _ & C); rewrite ET in C; exact C
                   | intros g c Hg; exfalso; pose proof (i_tear _ _ _ _ _ _ _ _ I _ _ _ Hg) as T; rewrite ET in T; exact T].
-  eapply P_spawn; [exact I | exact FR | lia | lia | right; exists (next_int s); split; auto; lia | cbn; auto].
+  all: eapply P_spawn; [exact I | exact FR | lia | lia | right; exists (next_int s); split; auto; lia | cbn; auto].
 Qed.
 
 Lemma job_step_inv s t c b s' :
